@@ -1,5 +1,6 @@
 import DirectVerif.Gen.C10
 import DirectVerif.Model.Crop
+import DirectVerif.Model.C10Modules
 /-!
 # Bridge C10 — the arithmetic translated from `/repo` equals the hand-written model
 
@@ -87,5 +88,26 @@ theorem crop_kspace_plan_eq : Gen.C10.cropKspacePlan = some Crop.cropKspacePlan 
 /-- neither transform has an early `return` that would skip the plan -/
 theorem kspace_plans_no_early_return :
     Gen.C10.padKspacePlanReturns = 1 ∧ Gen.C10.cropKspacePlanReturns = 1 := by decide
+
+/-! ### key plumbing, state, argument forms of the k-space modules (helper functions followed by the translator) -/
+
+/-- `PadKspace` reads the k-space under `self.kspace_key` and stores the result under `self.kspace_key` -/
+theorem pad_kspace_io_eq : Gen.C10.padKspacePlanIO = Crop.padKspaceIO := by decide
+
+/-- `CropKspace` (which has no key option) reads and stores `sample["kspace"]` -/
+theorem crop_kspace_io_eq : Gen.C10.cropKspacePlanIO = Crop.cropKspaceIO := by decide
+
+theorem rescale_kspace_io_eq : Gen.C10.rescaleKspaceIO = Crop.rescaleKspaceIO := by decide
+
+/-- no method other than `__init__` (nor a private helper it calls) writes instance, class or module state -/
+theorem module_state_writes_none : Crop.stateWritesOk Gen.C10.moduleStateWrites = true := by decide
+
+/-- every access to the sample uses the configured key or one of the documented side keys; nothing escapes -/
+theorem module_key_access_ok : Crop.keyAccessOk Gen.C10.moduleKeyAccess = true := by decide +kernel
+
+/-- the crop shape for the three argument forms of `CropKspace(crop=…)` -/
+theorem crop_shape_resolve_eq (form : Crop.CropForm) (ndim : Int) (crop keyVal : List Int) (slices : Int) :
+    Gen.C10.crop_shape_resolve form ndim crop keyVal slices = Crop.cropShapeResolve form ndim crop keyVal slices := by
+  cases form <;> simp [Gen.C10.crop_shape_resolve, Crop.cropShapeResolve]
 
 end DirectVerif.Bridge.C10
